@@ -9,7 +9,9 @@ import (
 	"fmt"
 	"net/http"
 	"net/url"
+	"regexp"
 	"sort"
+	"strconv"
 	"strings"
 	"testing"
 	"time"
@@ -180,6 +182,8 @@ type c19Step struct {
 	Omit   string `json:"omit,omitempty"` // put_user: attributes left out of the body ("groups" | "names" | "groups+names"): PUT replaces the record
 	// put_user: the body's "name" field names this other user (the URL says whose record it is; the body cannot say otherwise)
 	BodyName string `json:"body_name,omitempty"`
+	// sso: the request names no assertion consumer endpoint (the IdP picks among the registered ones)
+	NoACS bool `json:"no_acs_in_request,omitempty"`
 }
 
 // c19Password is the password a put/seed step sets. "set72" is exactly as long as bcrypt reads (72 bytes), "set100" longer
@@ -264,6 +268,7 @@ func genC19(g *Rng, tier string) *Plan {
 			if g.Bool(0.25) {
 				st.Cookie, st.User, st.Pw = "none", Pick(g, c19Users...), Pick(g, "right", "wrong", "empty", "other")
 			}
+			st.NoACS = g.Bool(0.3)
 		case 8:
 			st = c19Step{Op: "shortcut", Sc: Pick(g, c19Scs...), Cookie: Pick(g, "slot", "slot", "slot", "slot", "none", "forged", "forged-short", "forged-7", "forged-long", "forged-odd"), Slot: g.Intn(3), Relay: Pick(g, "", "deep")}
 		case 9:
@@ -304,6 +309,18 @@ func genC19(g *Rng, tier string) *Plan {
 			c19Step{Op: "put_user", User: u, Pw: "", Ver: ver, Omit: Pick(g, "groups", "names", "groups+names")},
 			c19Step{Op: "login", User: u, Pw: "right"},
 			c19Step{Op: "sso", SP: 0, Cookie: "slot", Slot: -1, Bind: Pick(g, "redirect", "post")})
+	}
+	if g.Bool(0.15) {
+		// targeted: a provider with two endpoints is used IdP-initiated and then by a request that names no endpoint; every later
+		// restart must continue with the same choice of endpoint
+		u := Pick(g, c19Users...)
+		ver++
+		steps = append(steps, c19Step{Op: "seed_user", User: u, Pw: "set", Ver: ver}, c19Step{Op: "put_service", Svc: "s1", SP: 2},
+			c19Step{Op: "put_shortcut", Sc: "h1", SP: 2, Relay: Pick(g, "fixed", "suffix", "")}, c19Step{Op: "login", User: u, Pw: "right"},
+			c19Step{Op: "sso", SP: 2, Cookie: "slot", Slot: -1, Bind: "redirect", NoACS: true},
+			c19Step{Op: "shortcut", Sc: "h1", Cookie: "slot", Slot: -1},
+			c19Step{Op: "sso", SP: 2, Cookie: "slot", Slot: -1, Bind: Pick(g, "redirect", "post"), NoACS: true},
+			c19Step{Op: "sso", SP: 2, Cookie: "slot", Slot: -1, Bind: "redirect"})
 	}
 	if g.Bool(0.15) {
 		// targeted: a PUT for one user whose body names another, then logins with either user's password
@@ -545,7 +562,50 @@ func (o c19Outcome) String() string {
 }
 
 func c19AssertionDetail(a c19Attrs, sp int, relay string) string {
-	return fmt.Sprintf("%s groups=%s -> sp%d acs=%s/saml/acs relay=%q", a.Email+"/"+a.Name+"/"+a.CN+"/"+a.SN+"/"+a.GN, strings.Join(a.Groups, "+"), sp, c19SPBase(sp), relay)
+	return c19AssertionDetailAt(a, sp, relay, c19ACS(sp))
+}
+
+// c19ACS is the endpoint SP i names in its requests. SP 2 registers two POST endpoints, the named one (index 1) first and
+// acs-zero (index 0) second, neither marked default: which of them an IdP-initiated login or a request naming no endpoint
+// goes to is the server's choice ("*" in an expectation) - but the same choice after a restart.
+func c19ACS(sp int) string {
+	if sp == 2 {
+		return c19SPBase(sp) + "/saml/acs-one"
+	}
+	return c19SPBase(sp) + "/saml/acs"
+}
+
+// c19IdPInitACS: where an IdP-initiated login for SP i must end up ("*": any of its registered POST endpoints).
+func c19IdPInitACS(sp int) string {
+	if sp == 2 {
+		return "*"
+	}
+	return c19ACS(sp)
+}
+
+func c19AssertionDetailAt(a c19Attrs, sp int, relay, acs string) string {
+	return fmt.Sprintf("%s groups=%s -> sp%d acs=%s relay=%q", a.Email+"/"+a.Name+"/"+a.CN+"/"+a.SN+"/"+a.GN, strings.Join(a.Groups, "+"), sp, acs, relay)
+}
+
+var c19ACSRe = regexp.MustCompile(` acs=\S+ `)
+
+// c19Matches: equal, or equal up to the endpoint where the expectation leaves it open (and the observed one belongs to that SP).
+func c19Matches(obs, exp c19Outcome) bool {
+	if obs == exp {
+		return true
+	}
+	if obs.Class != exp.Class || !strings.Contains(exp.Detail, " acs=* ") {
+		return false
+	}
+	m := regexp.MustCompile(`-> sp(\d) acs=(\S+) `).FindStringSubmatch(obs.Detail)
+	if m == nil {
+		return false
+	}
+	spi, _ := strconv.Atoi(m[1])
+	if !strings.HasPrefix(m[2], c19SPBase(spi)+"/saml/acs") {
+		return false
+	}
+	return c19ACSRe.ReplaceAllString(obs.Detail, " acs=* ") == exp.Detail
 }
 
 // step executes one step against the real server and the model; returns expected and observed.
@@ -648,7 +708,15 @@ func (w *c19World) step(st c19Step, res *Result) (expected, observed c19Outcome,
 		body := "this is not metadata"
 		expected = c19Outcome{Class: "ERROR"}
 		if !st.Bad {
-			b, err := xml.Marshal(w.sps[st.SP].Metadata())
+			md := w.sps[st.SP].Metadata()
+			if st.SP == 2 {
+				d := &md.SPSSODescriptors[0]
+				d.AssertionConsumerServices = []saml.IndexedEndpoint{
+					{Binding: saml.HTTPPostBinding, Location: c19ACS(2), Index: 1},
+					{Binding: saml.HTTPPostBinding, Location: c19SPBase(2) + "/saml/acs-zero", Index: 0},
+				}
+			}
+			b, err := xml.Marshal(md)
 			if err != nil {
 				panic(err)
 			}
@@ -740,7 +808,15 @@ func (w *c19World) step(st c19Step, res *Result) (expected, observed c19Outcome,
 		if st.User != "" {
 			pw = w.password(st.User, st.Pw)
 		}
-		u, err := spv.MakeRedirectAuthenticationRequest("relay-" + fmt.Sprint(st.SP))
+		ar, err := spv.MakeAuthenticationRequest(spv.GetSSOBindingLocation(saml.HTTPRedirectBinding), saml.HTTPRedirectBinding, saml.HTTPPostBinding)
+		if err != nil {
+			panic(err)
+		}
+		acs := c19ACS(st.SP)
+		if st.NoACS {
+			ar.AssertionConsumerServiceURL, acs = "", "*" // the request names no endpoint
+		}
+		u, err := ar.Redirect("relay-"+fmt.Sprint(st.SP), spv)
 		if err != nil {
 			panic(err)
 		}
@@ -759,9 +835,9 @@ func (w *c19World) step(st c19Step, res *Result) (expected, observed c19Outcome,
 			// what the reply may also be if the interrupted service change is read the other way
 			switch {
 			case st.User != "" && w.credsValid(st.User, pw):
-				w.lastAlt = c19Outcome{Class: "ASSERTION", Detail: c19AssertionDetail(w.users[st.User].A, st.SP, "relay-"+fmt.Sprint(st.SP))}
+				w.lastAlt = c19Outcome{Class: "ASSERTION", Detail: c19AssertionDetailAt(w.users[st.User].A, st.SP, "relay-"+fmt.Sprint(st.SP), acs)}
 			case st.User == "" && w.sessState(sess) != 2:
-				w.lastAlt = c19Outcome{Class: "ASSERTION", Detail: c19AssertionDetail(sess.Snap, st.SP, "relay-"+fmt.Sprint(st.SP))}
+				w.lastAlt = c19Outcome{Class: "ASSERTION", Detail: c19AssertionDetailAt(sess.Snap, st.SP, "relay-"+fmt.Sprint(st.SP), acs)}
 			}
 		}
 		switch {
@@ -769,17 +845,17 @@ func (w *c19World) step(st c19Step, res *Result) (expected, observed c19Outcome,
 			expected = c19Outcome{Class: "ERROR"}
 		case st.User != "":
 			if w.credsValid(st.User, pw) {
-				expected = c19Outcome{Class: "ASSERTION", Detail: c19AssertionDetail(w.users[st.User].A, st.SP, "relay-"+fmt.Sprint(st.SP))}
+				expected = c19Outcome{Class: "ASSERTION", Detail: c19AssertionDetailAt(w.users[st.User].A, st.SP, "relay-"+fmt.Sprint(st.SP), acs)}
 			} else {
 				expected = c19Outcome{Class: "LOGIN_FORM"}
 			}
 		default:
 			switch w.sessState(sess) {
 			case 0:
-				expected = c19Outcome{Class: "ASSERTION", Detail: c19AssertionDetail(sess.Snap, st.SP, "relay-"+fmt.Sprint(st.SP))}
+				expected = c19Outcome{Class: "ASSERTION", Detail: c19AssertionDetailAt(sess.Snap, st.SP, "relay-"+fmt.Sprint(st.SP), acs)}
 			case 1:
 				dc = true
-				expected = c19Outcome{Class: "ASSERTION", Detail: c19AssertionDetail(sess.Snap, st.SP, "relay-"+fmt.Sprint(st.SP))}
+				expected = c19Outcome{Class: "ASSERTION", Detail: c19AssertionDetailAt(sess.Snap, st.SP, "relay-"+fmt.Sprint(st.SP), acs)}
 			default:
 				expected = c19Outcome{Class: "LOGIN_FORM"}
 			}
@@ -809,7 +885,7 @@ func (w *c19World) step(st c19Step, res *Result) (expected, observed c19Outcome,
 		}
 		w.lastAlt = c19Outcome{}
 		if ok && w.sessState(sess) != 2 && !w.registered(sc.SP) && w.maybeReg[sc.SP] {
-			w.lastAlt = c19Outcome{Class: "ASSERTION", Detail: c19AssertionDetail(sess.Snap, sc.SP, relay)}
+			w.lastAlt = c19Outcome{Class: "ASSERTION", Detail: c19AssertionDetailAt(sess.Snap, sc.SP, relay, c19IdPInitACS(sc.SP))}
 		}
 		switch {
 		case !ok:
@@ -820,7 +896,7 @@ func (w *c19World) step(st c19Step, res *Result) (expected, observed c19Outcome,
 			expected = c19Outcome{Class: "ERROR"}
 		default:
 			dc = w.sessState(sess) == 1
-			expected = c19Outcome{Class: "ASSERTION", Detail: c19AssertionDetail(sess.Snap, sc.SP, relay)}
+			expected = c19Outcome{Class: "ASSERTION", Detail: c19AssertionDetailAt(sess.Snap, sc.SP, relay, c19IdPInitACS(sc.SP))}
 		}
 	case "list_users", "list_sessions", "list_services", "list_shortcuts":
 		kind := strings.TrimPrefix(st.Op, "list_")
@@ -1055,11 +1131,12 @@ func (w *c19World) decodeAssertion(f *htmlForm) c19Outcome {
 		return c19Outcome{Class: "ASSERTION", Detail: "undecodable"}
 	}
 	for i, spv := range w.sps {
-		if spv.AcsURL.String() != f.Action {
+		if !strings.HasPrefix(f.Action, c19SPBase(i)+"/saml/acs") {
 			continue
 		}
 		cp := *spv
-		cp.AllowIDPInitiated = true // the monitor accepts any request ID: correlation is C04's/C06's business
+		cp.AcsURL = mustURL(f.Action) // the endpoint the form goes to receives it
+		cp.AllowIDPInitiated = true   // the monitor accepts any request ID: correlation is C04's/C06's business
 		var as *saml.Assertion
 		if p := guard(func() { as, err = cp.ParseXMLResponse(raw, []string{""}, cp.AcsURL) }); p != nil {
 			return c19Outcome{Class: "ASSERTION", Detail: "sp-panic"}
@@ -1091,7 +1168,7 @@ func (w *c19World) decodeAssertion(f *htmlForm) c19Outcome {
 			nid = as.Subject.NameID.Value
 		}
 		a := c19Attrs{Name: first("uid"), Email: nid, CN: first("cn"), SN: first("sn"), GN: first("givenName"), Groups: get("eduPersonAffiliation")}
-		return c19Outcome{Class: "ASSERTION", Detail: c19AssertionDetail(a, i, f.Fields.Get("RelayState"))}
+		return c19Outcome{Class: "ASSERTION", Detail: c19AssertionDetailAt(a, i, f.Fields.Get("RelayState"), f.Action)}
 	}
 	return c19Outcome{Class: "ASSERTION", Detail: "to-unknown-acs " + f.Action}
 }
@@ -1109,6 +1186,7 @@ func newC19World(p *Plan, tag uint64) *c19World {
 	idpMD := (&saml.IdentityProvider{Certificate: rsaKeys[0].Cert, MetadataURL: mustURL("https://idp.example.com/metadata"), SSOURL: mustURL("https://idp.example.com/sso")}).Metadata()
 	for i := 0; i < c19NSP; i++ {
 		w.sps = append(w.sps, newSP(c19SPBase(i), rsaKeys[1+i%2], "", idpMD))
+		w.sps[i].AcsURL = mustURL(c19ACS(i))
 	}
 	return w
 }
@@ -1245,7 +1323,7 @@ func execC19(t *testing.T, p *Plan) *Result {
 							fw.installClock()
 							res.Extra["restart_twins_after_store_error"]++
 						}
-						if fw.faulted && (st.Op == "sso" || st.Op == "shortcut") && fw.lastAlt.Class != "" && obs == fw.lastAlt {
+						if fw.faulted && (st.Op == "sso" || st.Op == "shortcut") && fw.lastAlt.Class != "" && c19Matches(obs, fw.lastAlt) {
 							res.Extra["ambiguous_registration_accepted"]++
 							continue
 						}
@@ -1312,7 +1390,7 @@ func execC19(t *testing.T, p *Plan) *Result {
 				}
 				panic(hp)
 			}
-			if fw.faulted && (st.Op == "sso" || st.Op == "shortcut") && fw.lastAlt.Class != "" && obs == fw.lastAlt {
+			if fw.faulted && (st.Op == "sso" || st.Op == "shortcut") && fw.lastAlt.Class != "" && c19Matches(obs, fw.lastAlt) {
 				continue
 			}
 			if !c19CheckStep(res, i, fmt.Sprintf("multi-fault fork %d", fi), st, exp, obs, dc, leak, well, pan, fw.faulted) {
@@ -1350,13 +1428,13 @@ func c19CheckStep(res *Result, i int, phase string, st c19Step, exp, obs c19Outc
 	}
 	if dc {
 		res.dontcare("session-expiry-equality")
-		if obs.Class == "ASSERTION" && obs != exp {
+		if obs.Class == "ASSERTION" && !c19Matches(obs, exp) {
 			res.violate(i, "wrong-assertion", "C19/wrong-assertion/"+st.Op, exp.String()+" or LOGIN_FORM", obs.String(), phase)
 			return false
 		}
 		return true
 	}
-	if obs == exp {
+	if c19Matches(obs, exp) {
 		return true
 	}
 	// safety direction first: these are violations under every fault
